@@ -141,6 +141,20 @@ def boundary_programs(tier):
             ', '.join(names), uses))
         yield ('function f(%s){ return function(){ %s } }' % (
             ', '.join(names[:min(n, 300)]), uses))
+        if n > 30000:
+            continue
+        allrefs = ' '.join('%s;' % v for v in names)
+        # every kind of binder as the next generated name after n locals
+        yield ('function f(){ var %s; %s try{}catch(e){ e; } }' % (
+            ', '.join(names), uses))
+        yield ('function f(){ var %s; try{}catch(e){ e; %s } }' % (
+            ', '.join(names), allrefs))
+        yield ('function f(){ var %s; z = function g(p){ p; g; %s }; }' % (
+            ', '.join(names), allrefs))
+        yield ('function f(){ var %s; function g(p, q){ var r; p; q; r; %s } '
+               '}' % (', '.join(names), allrefs))
+        yield ('function f(){ var %s; o = {set s(p){ p; %s }}; }' % (
+            ', '.join(names), allrefs))
 
 
 def make_printers(conf):
